@@ -50,6 +50,26 @@ Theorem C03_same_crs_sampled_inclusion :
 Proof. exact sampled_inclusion. Qed.
 Print Assumptions C03_same_crs_sampled_inclusion.
 
+(** the requested padding (default 1) is honoured: every source pixel within [padding] of a needed
+    one (and inside the image) is part of the source region *)
+Theorem C03_same_crs_sampled_padding :
+  forall c ss ds A F ttol stol padding align r,
+  reproject_linear c ss ds A F ttol stol padding align = Ok r ->
+  paste_ok r = false ->
+  (0 <= fst ss)%Z -> (0 <= snd ss)%Z -> (0 <= fst ds)%Z -> (0 <= snd ds)%Z ->
+  (0 <= pad_default padding)%Z -> align_ok (norm_align align) ->
+  inverse_of F A ->
+  forall dy dx, (0 <= dy < fst ds)%Z -> (0 <= dx < snd ds)%Z ->
+    let p := aff_apply A (pix_center dy dx) in
+    0 <= fst p -> fst p < inject_Z (snd ss) -> 0 <= snd p -> snd p < inject_Z (fst ss) ->
+    forall jy jx,
+      (Qfloor (snd p) - pad_default padding <= jy <= Qfloor (snd p) + pad_default padding)%Z ->
+      (Qfloor (fst p) - pad_default padding <= jx <= Qfloor (fst p) + pad_default padding)%Z ->
+      (0 <= jy < fst ss)%Z -> (0 <= jx < snd ss)%Z ->
+      in_roi (roi_src r) jy jx.
+Proof. exact sampled_padding. Qed.
+Print Assumptions C03_same_crs_sampled_padding.
+
 Theorem C03_same_crs_sampled_within :
   forall c ss ds A F ttol stol padding align r,
   reproject_linear c ss ds A F ttol stol padding align = Ok r -> paste_ok r = false ->
